@@ -13,7 +13,7 @@ from vlib.hyp import run_property
 
 # ------------------------------------------------------------------- (a) round trip
 @st.composite
-def store_cases(draw):
+def store_cases(draw, long_paths=False):
     nfiles = draw(st.integers(1, 4))
     nframes = draw(st.integers(1, 14))
     ncomp = draw(st.integers(1, 3))
@@ -26,7 +26,9 @@ def store_cases(draw):
         frames.append({"file": draw(st.integers(0, nfiles - 1)), "idx": draw(st.one_of(st.integers(0, 30), st.integers(0, 30), st.integers(0, 30), st.none())), "rev": draw(st.booleans()),  # None: a single-configuration file
                        "order": [draw(val) for _ in range(ncomp)],
                        "vpot": draw(val) if en in ("both", "vpot-only") else None, "ekin": draw(val) if en == "both" else None})
-    return {"frames": frames, "nfiles": nfiles, "number": draw(st.integers(0, 500)), "step": draw(st.integers(0, 9999)),
+    # very long paths (tis_set.maxlength may exceed any built-in default length): the frame pattern repeated to just over 100000 / 2^17 frames
+    long = draw(st.sampled_from([100_001, 131_073])) if long_paths else None
+    return {"long": long, "frames": frames, "nfiles": nfiles, "number": draw(st.integers(0, 500)), "step": draw(st.integers(0, 9999)),
             "keep": draw(st.sampled_from([[], [], [".xtc"], [".xtc", ".log"]])), "side": draw(st.lists(st.booleans(), min_size=4, max_size=4)),
             "ext": draw(st.sampled_from(["xyz", "trr", "lammpstrj"])), "energy_attr": draw(st.booleans())}
 
@@ -36,6 +38,9 @@ def body_store(rec, c):
     from infretis.classes.path import Path, load_path
     from infretis.classes.system import System
 
+    c0 = c
+    if c.get("long"):
+        c = dict(c, frames=(c["frames"] * (c["long"] // len(c["frames"]) + 1))[: c["long"]])
     d = isolate.mkscratch("st_")
     try:
         srcs = []
@@ -50,7 +55,7 @@ def body_store(rec, c):
                 if c["side"][k]:
                     with open(os.path.splitext(f)[0] + ext, "w") as fh:
                         fh.write(f"side {ext} {k}")
-        path = Path(maxlen=100)
+        path = Path(maxlen=len(c["frames"]) + 100)
         for fr in c["frames"]:
             s = System()
             s.order = list(fr["order"])
@@ -71,9 +76,9 @@ def body_store(rec, c):
         os.makedirs(load_dir)
         multi = len(used) >= 2
         rev = any(fr["rev"] for fr in c["frames"])
-        rec.case(key=c, nontrivial=multi or rev, classes=["store", "store:multi-file" if multi else "store:one-file", "store:reversed-frames" if rev else "store:forward-only",
+        rec.case(key=c0, nontrivial=multi or rev, classes=["store", "store:multi-file" if multi else "store:one-file"] + (["store:more-than-100000-frames"] if len(c["frames"]) > 100000 else []) + [ "store:reversed-frames" if rev else "store:forward-only",
                                                        "store:keep-side-files" if c["keep"] else "store:no-side-files"],
-                 sample={"frames": c["frames"][:4], "nfiles": c["nfiles"], "number": c["number"], "keep": c["keep"]} if multi and rev and len(rec.samples) < 2 else None)
+                 sample={"frames": c["frames"][:4], "nframes": len(c["frames"]), "nfiles": c["nfiles"], "number": c["number"], "keep": c["keep"]} if multi and rev and len(rec.samples) < 2 else None)
         try:
             out = store.output(c["step"], {"path": path, "dir": load_dir})
             pdir = os.path.join(load_dir, str(c["number"]))
@@ -81,8 +86,8 @@ def body_store(rec, c):
         except Exception as exc:  # noqa: BLE001
             import traceback
 
-            raise Violation(f"store:raises:{type(exc).__name__}", f"{exc!r}\n{traceback.format_exc()[-800:]} case={c}")
-        info = f"case={c}"
+            raise Violation(f"store:raises:{type(exc).__name__}", f"{exc!r}\n{traceback.format_exc()[-800:]} case={str(c)[:3000]}")
+        info = f"case={str(c)[:3000]}"
         rec.check(back.length == len(c["frames"]) == out.length, "store:length", f"{back.length} vs {len(c['frames'])}")
         acc = os.path.join(pdir, "accepted")
         for i, (pp, fr) in enumerate(zip(back.phasepoints, c["frames"])):
@@ -142,6 +147,7 @@ def run(ctx):
     ctx.assumptions = ["frames of one path reference files with distinct basenames (pid+counter prefixes in production)",
                        "the lag asserted is (ensembles - 1) later replacements, one less than what the code implements, so as not to transcribe it"]
     run_property(ctx, "store", store_cases, body_store, ctx.pick(1500, 20000))
+    run_property(ctx, "store-long", lambda: store_cases(long_paths=True), body_store, ctx.pick(3, 12), shards=ctx.pick(3, 12), shrink=False)
     run_property(ctx, "history", h_strategy, h_body, ctx.pick(900, 9000), shards=ctx.procs, shrink=not ctx.quick)
 
 
